@@ -395,6 +395,13 @@ class TWorld(object):
       n = len(self.term.responses.get(r['name'], []))
       if n > 1:
         self.v('C11.answered-twice', 'request %s received %d responses' % (r['name'], n))
+      if n >= 1 and self.proto != 'kafka':
+        t, msg, stream = self.term.responses[r['name']][0]
+        if stream is not None:
+          data = bytes(stream.getvalue())
+          others = [q['arg'] for q in self.reqs if q is not r and q['arg'].encode('utf-8') in data and r['arg'].encode('utf-8') not in data]
+          if others and b'bogus' not in data:
+            self.v('C02.wrong-reply', 'request %s was completed with the reply to request %s' % (r['arg'], others[0]), transport=self.proto)
       if r['timed_out']:
         needle = r['arg'].encode('utf-8')
         later = [w for w in self.net.write_log[r['writes_at_timeout']:] if needle in w[2]]
